@@ -178,4 +178,59 @@ theorem tradesFor_frac (w : World K) (b : Broker K) (nlv : K) (r : Rebal K) (all
           · subst e; rw [hk]; exact ⟨hb, ha⟩
           · exact ih2 u hin
 
+/-- with fractional quantities (any threshold), `make_trades` either skips an imbalanced contract — only when
+    its weight is below the threshold *and* it is part of the target — or builds the trade for exactly the
+    imbalance -/
+def skipped (w : World K) (b : Broker K) (nlv : K) (r : Rebal K) (alloc : List (Key × K)) (kv : Key × Option K) : Bool :=
+  (match (b.ex.books kv.1).acq (sgn (kv.2.getD 0)) with
+    | none => false
+    | some p => decide (absv ((w.spec kv.1).mult * (kv.2.getD 0) * p / nlv) < r.margin)) &&
+  (alloc.map (·.1)).contains kv.1
+
+theorem tradeFor_frac_any (w : World K) (b : Broker K) (nlv : K) (r : Rebal K) (alloc : List (Key × K))
+    (kv : Key × Option K) (hf : r.fractional = true) :
+    tradeFor w b nlv r alloc kv.1 (kv.2.getD 0) =
+      if skipped w b nlv r alloc kv then .ok none
+      else (mkTrade w kv.1 (some (kv.2.getD 0)) (b.ex.books kv.1).bid (b.ex.books kv.1).ask).map some := by
+  unfold tradeFor skipped
+  simp only [hf, if_true, Bool.not_true, Bool.false_and, Bool.false_eq_true, if_false]
+  cases (b.ex.books kv.1).acq (sgn (kv.2.getD 0)) <;> rfl
+
+theorem tradesFor_frac_any (w : World K) (b : Broker K) (nlv : K) (r : Rebal K) (alloc : List (Key × K))
+    (hf : r.fractional = true) (imb : List (Key × Option K)) (ts : List (Trade K))
+    (h : tradesFor w b nlv r alloc imb = .ok ts) :
+    ts.map (fun t => (t.key, t.qty)) =
+      (imb.filter fun kv => !skipped w b nlv r alloc kv).map (fun kv => (kv.1, kv.2.getD 0)) := by
+  induction imb generalizing ts with
+  | nil =>
+      simp only [tradesFor, Except.ok.injEq] at h
+      subst h; rfl
+  | cons kv rest ih =>
+      rw [tradesFor, tradeFor_frac_any w b nlv r alloc kv hf] at h
+      by_cases hsk : skipped w b nlv r alloc kv = true
+      · simp only [hsk, if_true] at h
+        cases hr : tradesFor w b nlv r alloc rest with
+        | error e => rw [hr] at h; simp at h
+        | ok ts' =>
+          rw [hr] at h
+          simp only [Except.ok.injEq] at h
+          subst h
+          rw [ih ts' hr]
+          simp [List.filter_cons, hsk]
+      · simp only [hsk, Bool.false_eq_true, if_false] at h
+        cases hmk : mkTrade w kv.1 (some (kv.2.getD 0)) (b.ex.books kv.1).bid (b.ex.books kv.1).ask with
+        | error e => rw [hmk] at h; simp [Except.map] at h
+        | ok t =>
+          rw [hmk] at h
+          simp only [Except.map] at h
+          cases hr : tradesFor w b nlv r alloc rest with
+          | error e => rw [hr] at h; simp at h
+          | ok ts' =>
+            rw [hr] at h
+            simp only [Except.ok.injEq] at h
+            subst h
+            obtain ⟨hk, hq, _, _⟩ := mkTrade_fields w _ _ _ _ t hmk
+            have hq' : kv.2.getD 0 = t.qty := by simpa using hq
+            simp [List.filter_cons, hsk, ih ts' hr, hk, hq']
+
 end TV
